@@ -634,9 +634,20 @@ def gen_trace(df, rnd, tid, embs, scratch):
                 okd, _ = try_read(df, dpath)
                 ev.append({"k": "corrupt", "bit": bit, "out": "ok" if okd else "rej"})
             else:
-                secs = ["hdr", "begin", "data", "data", "data", "foot"] + (["check"] if rep != "txt" else [])
+                secs = ["hdr", "begin", "data", "data", "data", "foot"] + (["check", "excise", "excise"] if rep != "txt" else [])
                 sec = rnd.choice(secs)
                 inside = rnd.random() < 0.5
+                if sec == "excise" and ndata >= 2:
+                    # values missing at the end of the data block, footer kept (not a truncation)
+                    cut = ["excise", rnd.randrange(1, min(3, ndata - 1) + 1), inside]
+                    off, data = excised(raw, tuple(cut), ndata)
+                    with open(dpath, "wb") as fh:
+                        fh.write(data)
+                    okd, _ = try_read(df, dpath)
+                    ev.append({"k": "truncate", "cut": cut, "off": off, "out": "ok" if okd else "rej"})
+                    continue
+                if sec == "excise":
+                    sec = "data"
                 if sec == "hdr":
                     cut = ["hdr", rnd.randrange(4), inside]
                 elif sec == "begin":
